@@ -34,10 +34,18 @@ for sid in sys.argv[2:]:
         rc, out = sh(['cargo', 'test', '--workspace', '--offline', '-j', '8'])
         res['workspace_with_change'] = dict(exit=rc, passed=counts(out)[0], failed=counts(out)[1])
         def add_demo():
+            lib = list(LIB)
+            if demo.get('features'):
+                i = lib.index('--features'); lib[i + 1] = lib[i + 1] + ',' + demo['features']
             if demo['mode'] == 'append':
                 with open(os.path.join(W, demo['file']), 'a') as f:
                     f.write('\n' + open(os.path.join(d, 'demo.rs')).read())
-                return LIB + [demo['filter']]
+                return lib + [demo['filter']]
+            if demo['mode'] == 'module':
+                shutil.copy(os.path.join(d, 'demo.rs'), os.path.join(W, demo['file']))
+                with open(os.path.join(W, demo['hook_file']), 'a') as f:
+                    f.write('\n' + demo['hook_line'] + '\n')
+                return lib + [demo['filter']]
             shutil.copy(os.path.join(d, 'demo.rs'), os.path.join(W, 'rs-matter', 'tests', demo['name'] + '.rs'))
             return ['cargo', 'test', '-p', 'rs-matter', '--test', demo['name'], '--offline', '-j', '8']
         cmd = add_demo()
